@@ -11,7 +11,7 @@
 From Coq Require Import Reals String.
 From PV Require Import Lib.Common Model.C01_Meiosis Model.C02_Dist Model.C02_Check Model.C11_MapFn
   Proofs.C02_Bern Proofs.C02_Rates Proofs.C02_Uniform Proofs.C02_Haldane Proofs.C02_Check
-  Proofs.C01_Meiosis Model.C02_Loop Gen.C02_Kernel Proofs.C02_Kernel.
+  Proofs.C01_Meiosis Model.C02_Loop Gen.C02_Kernel Proofs.C02_Kernel Model.C02_Session Proofs.C02_Session.
 Local Open Scope Q_scope.
 
 (** REFINEMENT — under independent grid-uniform draws the crossover indicators of the C01 gamete are independent Bernoulli
@@ -290,3 +290,40 @@ Proof.
   - vm_compute. reflexivity.
   - exact Rlt_0_1.
 Qed.
+
+(** SESSIONS — several meiosis calls on one generator (one protocol object reused, crossover probabilities or parents replaced in
+    between): the k-th result is the meiosis of the state handed to call k on the k-th matrix of draws; nothing of the earlier
+    calls survives.  [run_session] folds C01's [mat_meiosis] over the calls. *)
+Theorem C02_session_call_independent : forall cs draws k, (k < length cs)%nat ->
+  nth k (run_session cs (rng0 draws)) [] =
+  meiosis_rows (c_geno (nth k cs call0)) (c_sel (nth k cs call0)) (nth k draws []) (c_xoprob (nth k cs call0)).
+Proof. exact session_call_independent. Qed.
+Print Assumptions C02_session_call_independent.
+
+Theorem C02_session_no_stale_state : forall cs cs' draws draws' k, (k < length cs)%nat -> (k < length cs')%nat ->
+  nth k cs call0 = nth k cs' call0 -> nth k draws [] = nth k draws' [] ->
+  nth k (run_session cs (rng0 draws)) [] = nth k (run_session cs' (rng0 draws')) [].
+Proof. exact session_no_stale_state. Qed.
+Print Assumptions C02_session_no_stale_state.
+
+(** RANGE — stored probabilities outside [0,1] act as never / always, the effective probability is monotone in the stored one, and
+    a stored value of at least one half keeps at least one half: no clipping anywhere below 1 *)
+Theorem C02_bern_outside : forall N p, (0 < N)%nat -> (1 <= p -> bern N p == 1) /\ (p <= 0 -> bern N p == 0).
+Proof. exact bern_outside. Qed.
+Print Assumptions C02_bern_outside.
+
+Theorem C02_bern_mono : forall N p q, (0 < N)%nat -> p <= q -> bern N p <= bern N q.
+Proof. exact bern_mono. Qed.
+Print Assumptions C02_bern_mono.
+
+Theorem C02_bern_above_half : forall N p, (0 < N)%nat -> 1 # 2 <= p -> 1 # 2 <= bern (2 * N) p.
+Proof. exact bern_above_half. Qed.
+Print Assumptions C02_bern_above_half.
+
+Example C02_session_hyps_satisfiable :
+  let g := [[[0; 0]]; [[1; 1]]]%Z in
+  let cs := [mkCall g [0]%nat [1 # 2; 0]; mkCall g [0; 0]%nat [0; 1]] in
+  let draws := [[[1 # 4; 0]]; [[0; 3 # 4]; [1 # 2; 1 # 2]]] in
+  (1 < length cs)%nat /\ nth 1 (run_session cs (rng0 draws)) [] = [[0; 1]; [0; 1]]%Z
+  /\ (0 < 4)%nat /\ 1 <= 3 # 2 /\ bern 4 (3 # 2) == 1 /\ bern 4 (3 # 4) == 3 # 4 /\ 1 # 2 <= 3 # 4.
+Proof. cbv zeta. repeat split; try (vm_compute; reflexivity); try (cbn; lia); try (vm_compute; discriminate). Qed.
